@@ -69,6 +69,11 @@ struct P {
 	late_add_flagged: bool,
 	/// the sender restarted from a manager serialized before its first terminal event
 	stale_restart_since_terminal: bool,
+	/// ... and at that restart an HTLC of the payment was still in a commitment transaction of an open channel (its
+	/// removal not yet irrevocable) while an update that told the sender's monitor of the counterparty's claim was
+	/// durable: the monitor then still holds what settled it
+	stale_restart_with_live_htlc: bool,
+	live_detail: String,
 }
 
 #[derive(Default, Clone, Debug)]
@@ -89,6 +94,8 @@ struct Dur {
 	just_persisted: BTreeSet<u64>,
 	/// payment hash -> ids of the updates carrying its preimage
 	preimage: HashMap<[u8; 32], Vec<u64>>,
+	/// payment hash -> ids of the updates (new holder commitment) that told the monitor the counterparty's claim
+	claimed: HashMap<[u8; 32], Vec<u64>>,
 }
 
 pub struct PayMonitor {
@@ -165,9 +172,19 @@ impl Monitor for PayMonitor {
 			Obs::Restarted { node, snapshot_step, .. } => {
 				self.restarted.insert(*node);
 				if let Some(ss) = snapshot_step {
+					let live: std::collections::HashSet<usize> = self.ps.iter().filter(|(_, p)| p.htlcs.iter().flatten().any(|i| {
+						let h = &self.hs[*i];
+						// still in a commitment of an open channel, and the node's monitor had durably been told of the claim
+						!matches!(self.phase(h), HtlcPhase::Resolved { .. }) && !w.chans[h.chan].closed && w.chans[h.chan].fault.is_none()
+							&& self.dur.get(&(*node, w.chans[h.chan].chan_id())).and_then(|d| d.claimed.get(&h.hash).map(|ids| ids.iter().any(|id| !d.incomplete.contains(id)))).unwrap_or(false)
+					})).map(|(pi, _)| *pi).collect();
 					for (pi, p) in self.ps.iter_mut() {
 						if w.payments[*pi].src == *node && p.terminal_step.map(|t| *ss < t).unwrap_or(false) {
 							p.stale_restart_since_terminal = true;
+							if live.contains(pi) {
+								p.stale_restart_with_live_htlc = true;
+								p.live_detail = format!("restart at step {} from the manager of step {}", w.step, ss);
+							}
 						}
 					}
 				}
@@ -199,6 +216,11 @@ impl Monitor for PayMonitor {
 							d.preimage.entry(sha256::Hash::hash(&payment_preimage.0).to_byte_array()).or_default().push(*update_id);
 						},
 						VerifStep::CommitmentSecret { secret, .. } => secrets.push(*secret),
+						VerifStep::HolderCommitment { claimed_preimages, .. } => {
+							for pre in claimed_preimages {
+								d.claimed.entry(sha256::Hash::hash(&pre.0).to_byte_array()).or_default().push(*update_id);
+							}
+						},
 						_ => {},
 					}
 				}
@@ -679,7 +701,10 @@ impl PayMonitor {
 				if p.forgotten {
 					v.violation("C03", "P5-forgotten-payment", "a payment the restarted node no longer listed produced an event afterwards", format!("node{} payment#{}", node, pi));
 				}
-				if p.sent > 0 && p.stale_restart_since_terminal {
+				if p.sent > 0 && p.stale_restart_since_terminal && p.stale_restart_with_live_htlc {
+					v.rep.count("c03_p4_failed_after_sent_with_live_htlc_at_the_stale_restart");
+					v.violation("C03", "P4-one-terminal-event", "PaymentFailed reported after PaymentSent had been handled: the sender restarted from an older ChannelManager while the settled HTLC was still in a commitment transaction and its monitor had durably recorded the claim", format!("node{} payment#{} ({}; htlcs now: {:?})", node, pi, p.live_detail, p.htlcs.iter().flatten().map(|i| (self.hs[*i].chan, self.hs[*i].id, self.phase(&self.hs[*i]), self.hs[*i].fulfil_emitted, self.hs[*i].fulfil_delivered)).collect::<Vec<_>>()));
+				} else if p.sent > 0 && p.stale_restart_since_terminal {
 					v.violation("C03", "P4-one-terminal-event", "PaymentFailed reported after PaymentSent had been handled, once the sender restarted from a ChannelManager serialized before that PaymentSent", format!("node{} payment#{}", node, pi));
 				} else if p.sent > 0 {
 					v.violation("C03", "P4-one-terminal-event", "PaymentFailed reported after PaymentSent for the same payment", format!("node{} payment#{}", node, pi));
